@@ -19,7 +19,12 @@ SPEC = {
              "less than a step below: no step fits, `from` tokens at once, the part finishes at its own start - alone and before further parts) judged against manual chaining of separately drained parts. TestSeqFinite: scripted Next/Left "
              "by one caller in virtual time, optional on-finish wrapper, config or constructor path. TestConcFinite: 2-8 free-running "
              "goroutines, 4 rounds per case, multiset + linearisability windows for Left. TestSeqUnlimited/TestConcUnlimited: real time, "
-             "1-4 ms parts, callers wait for each token as coreutil.Waiter does. TestImplicitStart: 2-8 goroutines released together "
+             "1-4 ms parts, callers wait for each token as coreutil.Waiter does; TestSeqUnlimited also draws the start mode (explicit Start, or - as the engine does - "
+             "nobody calls Start and the first Next starts the tree: the start instant is the first finite token minus its chain offset and must lie inside that call), "
+             "puts a part that is built as a composite of its own (nested profile, instance_step with steps, step with from != to) in front of every second tree, and an idle plan: "
+             "having drawn the last token in front of an unknown-length part the caller may stop drawing, wait until the clock is 1.2 ms past the finish of that part "
+             "(and of the unknown-length parts chained right behind it) and only poll Left() three times; any Left() that began >= 1 ms (guard band) after the last remaining "
+             "unlimited part finished, with no undrawn token in front of that part, must be the exact count. TestImplicitStart: 2-8 goroutines released together "
              "race for the first Next of an UNSTARTED finite schedule (what the engine's instances do), 12 rounds per case; one start "
              "instant inside the measured window must explain every token. TestUnlimitedStartRace: 200 trials per case; a fresh unlimited(d) part (bare or first in a "
              "composite) is started implicitly by Next (or explicitly by one Start) while 1-4 other goroutines poll Left(); every "
@@ -31,6 +36,9 @@ SPEC = {
                "TestConcFinite/callers_ge_4": 0.3, "TestInterleavings/next_upgrade_contended": 0.1,
                "TestInterleavings/left_upgrade_point": 0.05, "TestImplicitStart/single_elementary_profile": 0.3,
                "TestImplicitStart/callers_ge_4": 0.3, "TestSeqUnlimited/left_negative_seen": 0.1,
+               "TestSeqUnlimited/implicit_start": 0.15, "TestSeqUnlimited/composite_first_part": 0.25,
+               "TestSeqUnlimited/idle_left_exact_demanded": 0.15, "TestSeqUnlimited/idle_left_exact_demanded_implicit_start": 0.05,
+               "TestSeqUnlimited/idle_left_exact_demanded_behind_composite_first_part_implicit_start": 0.03,
                "TestSeqFinite/istep_to_below_from_before_parts": 0.15, "TestSeqFinite/istep_to_below_from_by_a_step": 0.12,
                "TestConcFinite/istep_to_below_from_before_parts": 0.12, "TestImplicitStart/istep_to_below_from": 0.1},
     "manifest": {
@@ -44,5 +52,5 @@ SPEC = {
                  "Interleaving control exists only at the hook's four yield points, on flat composites."),
     },
     "assumptions": ["callers of trees with unlimited parts wait for a token's time before drawing the next (coreutil.Waiter behaviour)",
-                    "Left() may stay negative while an unlimited part ahead has not been started, even if its window has passed on the clock"],
+                    "Left() may stay negative while an unlimited part ahead has not been started because tokens in front of it are still undrawn, even if its window has passed on the clock (with nothing left in front of it, it must turn exact once the window has passed)"],
 }
